@@ -17,15 +17,27 @@ import (
 type CExpr interface{ String() string }
 
 type (
-	CLit    struct{ Kind, Val string } // int, string, bool, nil
-	CIdent  struct{ Name string }
-	CSel    struct{ X CExpr; Sel string }
-	CIndex  struct{ X, I CExpr }
-	CSlice  struct{ X, Lo, Hi CExpr }
-	CCall   struct{ Fn string; Args []CExpr }
-	CUnary  struct{ Op string; X CExpr }
-	CBinary struct{ Op string; X, Y CExpr }
-	CQuant  struct {
+	CLit   struct{ Kind, Val string } // int, string, bool, nil
+	CIdent struct{ Name string }
+	CSel   struct {
+		X   CExpr
+		Sel string
+	}
+	CIndex struct{ X, I CExpr }
+	CSlice struct{ X, Lo, Hi CExpr }
+	CCall  struct {
+		Fn   string
+		Args []CExpr
+	}
+	CUnary struct {
+		Op string
+		X  CExpr
+	}
+	CBinary struct {
+		Op   string
+		X, Y CExpr
+	}
+	CQuant struct {
 		Forall bool
 		Vars   [][2]string // name, type
 		Body   CExpr
